@@ -26,6 +26,13 @@ def gen_cfg(r, tier, estimator="keyed"):
            "evals": r.randint(1, 5 if tier == "quick" else 8),
            "max_leaves": 60 if tier == "quick" else 150, "max_points": 2500 if tier == "quick" else 6000,
            "clock_jumps": r.random() < 0.3, "recalc": r.choice([None, None, None, 1, 2, 3, 5])}
+    if r.random() < 0.12:
+        # long single-dimension-splitting histories with the automatic decision on a smooth coordinate-symmetric integrand:
+        # equal twin errors make a leaf split along several dimensions at once, after initial areas have been extended
+        cfg.update(dim=2, a=[0.0, 0.0], b=[1.0, 1.0], lmin=1, lmax=2, version=r.choice([0, 0, 1, 2]), single_dim=True, automatic=True,
+                   symmetric=True, nnoise=1, jump=False, boundary=True, evals=r.randint(6, 12 if tier == "quick" else 18),
+                   estimator=r.choice(["real", "keyed"]), p_zero=r.choice([0.0, 0.2]), margin=r.choice([0.5, 0.9]), recalc=None,
+                   max_leaves=400, max_points=4000)
     return cfg
 
 
@@ -93,7 +100,7 @@ class ExtendSplitSim(DS.DimwiseSim):
         if f is None:
             f = SimFunction(self.rk, nnoise=c.get("nnoise", 1), probes=probes, a=c["a"], b=c["b"],
                             jump=(c["a"][0] + 0.3 * (c["b"][0] - c["a"][0])) if c.get("jump") else None,
-                            offset=c.get("offset", 0.0))
+                            offset=c.get("offset", 0.0), symmetric=c.get("symmetric", False))
         self.f = f
         grid = make_local_grid(c)
         self.op = Integration(f=f, grid=grid, dim=c["dim"], reference_solution=None if reference is None else np.array(reference, dtype=float),
@@ -162,7 +169,8 @@ class ExtendSplitSim(DS.DimwiseSim):
         from simcore.env import SimFunction
         c = self.cfg
         g = make_local_grid(c)
-        f2 = SimFunction(self.f.key, nnoise=self.f.nnoise, probes=self.f.probes, a=self.f.a, b=self.f.b, jump=self.f.jump, offset=self.f.offset)
+        f2 = SimFunction(self.f.key, nnoise=self.f.nnoise, probes=self.f.probes, a=self.f.a, b=self.f.b, jump=self.f.jump, offset=self.f.offset,
+                         symmetric=getattr(self.f, "symmetric", False))
         v = np.asarray(g.integrate(f2, [int(x) for x in level_coarse], np.array(leaf.start, dtype=float), np.array(leaf.end, dtype=float)), dtype=float)
         g.setCurrentArea(np.array(leaf.start, dtype=float), np.array(leaf.end, dtype=float), [int(x) for x in level_coarse])
         P, W = g.get_points_and_weights()
